@@ -257,7 +257,8 @@ def shapes(tier):
     out.append(Shape("c02_display_struct_pointer_reference_in_args", module(decl, harness_for(t, "Display", "S", t.ctor("S"))),
                      [Harness("same_as_format", "probe id symbolic", covers=1, unwind=t.unwind,
                               asserts="`{:p}` with the argument `_0` prints the address of the field (a reference to it), as format! does")],
-                     decl.replace("\n", " "), exercises=["impl/src/fmt/display.rs::expand_struct"], quick=False, crate_attrs=CRATE_ATTRS))
+                     decl.replace("\n", " "), exercises=["impl/src/fmt/display.rs::expand_struct", "impl/src/fmt/mod.rs::transparent_call_on_fields"],
+                     quick=True, crate_attrs=CRATE_ATTRS))
     out += rename_all_shapes()
     if tier == "quick":
         out = [s for s in out if s.quick]
